@@ -161,6 +161,26 @@ FIRST_RUN_MISSED = {  # seeded changes the checks did NOT catch when first confr
     "C18-18": "only roots were copied in C18 (C12 caught it)",
     "C19-17": "no failing edit before the evaluation (C09 caught it)",
     "C19-18": "all nodes had distinct node ids; the trees are now also built with one shared id",
+    "C01-19": "the class of the fail-fast error was only looked at for a parent that is a root; it is now also looked at for a parent that hangs below another node",
+    "C02-20": "rules of different content kinds never judged the same string one after the other in one process; every ordered pair of kinds now does",
+    "C07-19": "a tree was exported once; it is now exported, edited in place (one kind of field at a time) and exported again",
+    "C07-20": "all nodes had distinct node ids; both exporters now also write trees whose nodes share one id",
+    "C08-19": "no call of another module before the imports; normalize() (XML and text mode) now precedes every work item",
+    "C08-20": "no document with an internal DTD subset; a general entity declared there is used in text and tails now",
+    "C09-19": "all nodes had distinct ids; a family with one id shared by all nodes was added",
+    "C09-20": "no parent whose namespace map has a default namespace (key None)",
+    "C10-19": "the static list helpers of Rule (child_list_max_occurrences ...) were never called on the live table",
+    "C11-19": "no plain attribute whose key starts with xml: in the bases",
+    "C11-20": "baselines were taken in processes other work items had already used; one item of every base now runs first in its block, i.e. from the pristine image, and a base with a short abstract and empty descriptions was added",
+    "C12-19": "queries were never run on the original and then on the copy",
+    "C12-20": "copies were only edited while detached; the copy is now also attached next to its source and a prefix re-bound on either",
+    "C13-19": "saving to JSON and loading was not part of C13; within the invariant loading can reproduce, the reloaded tree must show the same bindings node for node (C06 would have caught it)",
+    "C14-20": "exit 2: a problem recorded without its history crashed the replay; it is skipped there and decided by the block re-run",
+    "C15-20": "no content with a decimal comma among the content faults",
+    "C16-19": "referenced children and referencing elements never bound one prefix to different URIs",
+    "C17-19": "the metadata rule was skipped; its two queries must at least agree",
+    "C17-20": "validity after insertion was judged by the DFA only; it is now also judged by the Rule object that suggested the index (which validated the incomplete parent, fail-fast, before)",
+    "C20-20": "no CDATA section next to other text",
 }
 NOT_DETECTED_BY_DESIGN = {"C19-5", "C09-8"}
 ids = sys.argv[1:] or sorted(os.listdir(os.path.join(HERE, "seeded")))
